@@ -5,6 +5,10 @@ from pathlib import Path
 
 VERIF = Path(__file__).resolve().parent.parent
 FIRST = {
+    "C04-7": "missed; HOME / XDG_* pointed into the watched sandbox, every tag at least once in the quick tier",
+    "C07-9": "missed; trees with directories reachable by several routes (links to directories), judged by the harness's own link-following walk",
+    "C08-9": "missed; stream depth_real (real directory-mode renames over trees with linked directories)",
+    "C09-8": "generator extended (two-criteria incomparable sort expressions, a later incomparable pair) after reading the change and before the first trial",
     "C01-1": "missed; plan universe extended (case-only / n/../a spellings)",
     "C03-1": "missed; prompt-observation oracle and manual_vs_flag stream added",
     "C07-1": "missed; several adjacent hidden directories per level",
